@@ -1,7 +1,7 @@
 from props import sched_common
 
 THEOREMS = ["Dispenso.Sched." + t for t in ['C03_rings_inside_always', 'C03_rings_inside', 'C03_push_outside_rejected', 'C03_shrink_over_work_rejected']]
-# (flavour, scenarios in the quick tier): 0 mixed, 1 without resize, 2 resize-heavy
+# (flavour, scenarios in the quick tier): 0 mixed, 1 without resize, 2 resize-heavy (incl. resize(0) held in join while a ring-routed bulk arrives), 3 overloaded pool + chains, 4 workers parked between submissions, 5 exception-heavy
 FLAVOURS = [(2, 400)]
 
 
